@@ -1,7 +1,9 @@
 (** Correspondence evaluator for C13 (benchmath summaries and comparisons).
     Case kinds (first field):
       1 summary   (1 a values conf (0 sorted center lo hi conf' warns pct) (qci choose tinv)) | (1 a values conf (1))
-      2 compare   (2 a x1 x2 alpha (0 p n1 n2 alpha' warns string) deltas variants)          | (2 a x1 x2 alpha (1))
+      2 compare   (2 a x1 x2 alpha (0 p n1 n2 alpha' warns string) deltas variants raw)      | (2 a x1 x2 alpha (1))
+                  raw = (p) the p-value of a direct call of go-moremath's test (MannWhitneyUTest for a = 0,
+                  TwoSampleWelchTTest for a = 2) on the same values, () when that call fails or a = 1
       3 FormatDelta on arbitrary floats   (3 p alpha old new string)
       4 PctRangeString on arbitrary floats (4 center lo hi string)
       5 Comparison.String                 (5 p n1 n2 string)
@@ -9,9 +11,16 @@
     corr_ok: the model (Model/BenchMath.v, Model/MoreMathU.v) reproduces the
     observation. prop_ok: the observation satisfies the specification
     (Model/BenchMathSpec.v and the rendering rules), independently of the model's
-    algorithms. *)
+    algorithms: exact rational arithmetic with tolerances relative to the scale of
+    the quantity judged, Model/BenchMathJudge.v).
+    AssumeNothing.Compare is modelled WITH the repair hooks/fix_c13_cap_p_at_one.diff
+    (Model/BenchMathCap.v: P = math.Min(res.P, 1)); on unchanged /repo the untied
+    exact path reports 1 + 2^-52 for an exact p of 1 and the check says VIOLATION.
+    known_ok: prop_ok with exactly the recorded deviations of the two known
+    findings allowed, each on its own input domain (decided here from the input). *)
 From Perf Require Import Base.Bytes Base.Sx Base.B64 Base.SxF Base.FmtPct
-     Model.StatsF Model.MoreMathU Model.BenchMath Model.BenchMathSpec.
+     Model.StatsF Model.MoreMathU Model.BenchMath Model.BenchMathSpec
+     Model.BenchMathCap Model.BenchMathJudge.
 From Perf Require Base.FmtFixed.
 Local Open Scope Z_scope.
 
@@ -66,7 +75,7 @@ Definition as_variant (s : sx) : option variant :=
 Inductive case :=
 | KSummary (a : Z) (vals : list b64) (conf : b64) (obs : option osummary) (o : oracles)
 | KCompare (a : Z) (x1 x2 : list b64) (alpha : b64) (obs : option ocompare)
-           (deltas : list (b64 * b64 * bytes)) (vars : list variant)
+           (deltas : list (b64 * b64 * bytes)) (vars : list variant) (raw : option b64)
 | KDelta (p alpha old new : b64) (s : bytes)
 | KPct (c lo hi : b64) (s : bytes)
 | KString (p : b64) (n1 n2 : Z) (s : bytes).
@@ -75,6 +84,13 @@ Definition as_opt2 (s : sx) : option (option (b64 * b64)) :=
   match s with
   | SL [] => Some None
   | SL [a; b] => do a <- as_f64 a; do b <- as_f64 b; Some (Some (a, b))
+  | _ => None
+  end.
+
+Definition as_opt1 (s : sx) : option (option b64) :=
+  match s with
+  | SL [] => Some None
+  | SL [a] => do a <- as_f64 a; Some (Some a)
   | _ => None
   end.
 
@@ -93,13 +109,14 @@ Definition decode (s : sx) : option case :=
       Some (KSummary a vals conf (Some (mkOsum sorted c lo hi cf warns pct)) (mkOr qcis chooses tinv))
   | SL [SZ 2; SZ a; x1; x2; alpha; SL [SZ 1]] =>
       do x1 <- as_floats x1; do x2 <- as_floats x2; do alpha <- as_f64 alpha;
-      Some (KCompare a x1 x2 alpha None [] [])
-  | SL [SZ 2; SZ a; x1; x2; alpha; SL [SZ 0; p; SZ n1; SZ n2; al; warns; SB str]; deltas; vars] =>
+      Some (KCompare a x1 x2 alpha None [] [] None)
+  | SL [SZ 2; SZ a; x1; x2; alpha; SL [SZ 0; p; SZ n1; SZ n2; al; warns; SB str]; deltas; vars; raw] =>
       do x1 <- as_floats x1; do x2 <- as_floats x2; do alpha <- as_f64 alpha;
       do p <- as_f64 p; do al <- as_f64 al; do warns <- as_list as_owarn warns;
       do deltas <- as_list (as_triple as_f64 as_f64 as_b) deltas;
       do vars <- as_list as_variant vars;
-      Some (KCompare a x1 x2 alpha (Some (mkOcmp p n1 n2 al warns str)) deltas vars)
+      do raw <- as_opt1 raw;
+      Some (KCompare a x1 x2 alpha (Some (mkOcmp p n1 n2 al warns str)) deltas vars raw)
   | SL [SZ 3; p; al; old; new; SB str] =>
       do p <- as_f64 p; do al <- as_f64 al; do old <- as_f64 old; do new <- as_f64 new;
       Some (KDelta p al old new str)
@@ -175,6 +192,9 @@ Definition corr_summary (a : Z) (vals : list b64) (conf : b64) (obs : option osu
       && b64_same (sm_center m) (os_center ob) && b64_same (sm_lo m) (os_lo ob)
       && b64_same (sm_hi m) (os_hi ob) && b64_same (sm_conf m) (os_conf ob)
       && warns_match (sm_warn m) (os_warns ob)
+      (* the numbers printed in the warning texts parse back to the values the code had
+         (decided by the harness; ties model and code, not part of the specification) *)
+      && forallb w_textok (os_warns ob)
       && beq (pct_range_string m) (os_pct ob)
       && fixed_agree false 0 (pct_value' (sm_center m) (sm_lo m) (sm_hi m))
       (* the model's exact-branch QuantileCI agrees with direct calls of stats.QuantileCI *)
@@ -191,12 +211,6 @@ Definition corr_summary (a : Z) (vals : list b64) (conf : b64) (obs : option osu
   end.
 
 Definition in_open_unit (x : b64) : bool := b64_lt f_zero x && b64_lt x b64_one.
-Definition rat_half_sum (a b : rat) : rat := (fst a * snd b + fst b * snd a, 2 * snd a * snd b).
-Definition rat_sum (l : list rat) : rat :=
-  fold_left (fun acc x => (fst acc * snd x + fst x * snd acc, snd acc * snd x)) l (0, 1).
-
-Definition omap_rat (xs : list b64) : option (list rat) := omap rat_of_b64 xs.
-
 (** conf' with 1 - conf' = (1 - conf) * k / 100000 *)
 Definition perturb (q : rat) (k : Z) : rat :=
   (100000 * snd q - (snd q - fst q) * k, 100000 * snd q).
@@ -212,17 +226,13 @@ Definition prop_summary (a : Z) (vals : list b64) (conf : b64) (obs : option osu
       let hi := os_hi ob in
       is_sorted xs && floats_same (sort_f xs) (sort_f vals)
       && beq (os_pct ob) (pct_range_string (mkSummary c lo hi (os_conf ob) []))
-      && forallb w_textok (os_warns ob)
       && match a with
          | 0 =>
              (* centre: the sample median *)
              let lm := nth_f xs ((n - 1) / 2) in
              let um := nth_f xs (n / 2) in
              b64_le lm c && b64_le c um
-             && match rat_of_b64 lm, rat_of_b64 um, rat_of_b64 c with
-                | Some ql, Some qu, Some qc => rat_close_rel qc (rat_half_sum ql qu)
-                | _, _, _ => false
-                end
+             && median_ok xs c
              (* interval ends: order statistics (witness l, r from a direct QuantileCI call) or infinite *)
              && match approx_of o n with
                 | None => false
@@ -237,19 +247,23 @@ Definition prop_summary (a : Z) (vals : list b64) (conf : b64) (obs : option osu
                     && b64_same hi (if n <? r then f_inf false else nth_f xs (r - 1))
                     && b64_le lo c && b64_le c hi
                     && (if in_open_unit conf then
-                          (* n <= 30: the true binomial coverage of the returned band is at least
-                             the requested level and the reported level is that coverage (exactly
-                             when mathx.Choose is exact, n <= 20; to rounding above);
-                             n > 30 (normal approximation): reported >= requested *)
-                          if n <=? 30 then
-                            match rat_of_b64 (os_conf ob), rat_of_b64 conf with
-                            | Some q, Some qc =>
-                                rat_le qc (coverage n l r)
-                                && (if n <=? 20 then rat_eq q (coverage n l r) && b64_ge (os_conf ob) conf
-                                    else rat_close_rel q (coverage n l r))
-                            | _, _ => false
-                            end
-                          else b64_ge (os_conf ob) conf
+                          (* every n: the TRUE binomial coverage of the returned band [l, r) is at
+                             least the requested level, and so is the reported level;
+                             n <= 30 (small samples): the reported level is that coverage (exactly
+                             when mathx.Choose is exact, n <= 20; to 10^-9 relative above, where the
+                             float sum of inexact binomials can fall a few ulps short of a requested
+                             level that is itself within 10^-15 of the coverage);
+                             n > 30: the reported level is go-moremath's normal-approximation
+                             number, only required to be >= the requested one *)
+                          match rat_of_b64 (os_conf ob), rat_of_b64 conf with
+                          | Some q, Some qc =>
+                              let cov := coverage n l r in
+                              rat_le qc cov
+                              && (if n <=? 20 then rat_eq q cov && b64_ge (os_conf ob) conf
+                                  else if n <=? 30 then rat_within 9 q cov cov
+                                  else b64_ge (os_conf ob) conf)
+                          | _, _ => false
+                          end
                         else true)
                 end
              (* warning exactly when an end is infinite, with the needed sample count *)
@@ -284,23 +298,26 @@ Definition prop_summary (a : Z) (vals : list b64) (conf : b64) (obs : option osu
          | 1 =>
              is_mode c xs && b64_same lo (nth_f xs 0) && b64_same hi (nth_f xs (n - 1))
              && forallb (fun x => b64_le lo x && b64_le x hi) xs
-             && b64_same (os_conf ob) b64_one
+             (* the reported level of the exact model (the code says 1) is not part of the
+                statement: compared with the model in corr_ok only *)
              && match os_warns ob with
                 | [] => all_equal xs
                 | [w] => (w_kind w =? 3) && negb (all_equal xs)
                 | _ => false
                 end
          | 2 =>
-             (* centre: the mean; symmetric t interval around it *)
-             match omap_rat xs, rat_of_b64 c with
-             | Some qs, Some qc =>
-                 let s := rat_sum qs in
-                 rat_close_rel qc (fst s, snd s * n)
-             | _, _ => false
-             end
+             (* centre: the mean; its t interval: symmetric about the centre, half width
+                |t quantile| * sd / sqrt n with the recorded quantile (BenchMathJudge.t_interval_ok);
+                a single value has no spread estimate: the interval is the whole line *)
+             mean_ok xs c
              && b64_le lo c && b64_le c hi
              && b64_same (os_conf ob) conf
-             && (if in_open_unit conf && (n <=? 1) then b64_same lo (f_inf true) && b64_same hi (f_inf false)
+             && (if in_open_unit conf then
+                   if n <=? 1 then b64_same lo (f_inf true) && b64_same hi (f_inf false)
+                   else match or_tinv o with
+                        | Some (al, tq) => t_interval_ok xs conf c lo hi al tq
+                        | None => false
+                        end
                  else true)
              && match os_warns ob with [] => true | _ => false end
          | _ => false
@@ -308,27 +325,33 @@ Definition prop_summary (a : Z) (vals : list b64) (conf : b64) (obs : option osu
   end.
 
 (** ** comparisons *)
-(** [r] = utest x1 x2, evaluated once by the caller (utest sorts its arguments itself) *)
+(** [r] = utest x1 x2, evaluated once by the caller (utest sorts its arguments itself);
+    [p_o] = the p-value of the direct library call (oracle for the float the test returns).
+    AssumeNothing.Compare as REPAIRED (hooks/fix_c13_cap_p_at_one.diff): P = math.Min(res.P, 1) *)
 Definition model_compare (a : Z) (x1 x2 : list b64) (alpha p_o : b64) (r : uresult) : option comparison :=
   let s1 := new_sample x1 (mkThr alpha) in
   let s2 := new_sample x2 (mkThr (b64_of_bits 0x3FE8000000000000)) in   (* the harness gives s2 another threshold *)
   let uf := fun _ _ : list b64 => utest_outcome_of r p_o in
   match a with
-  | 0 => compare uf (welch_outcome p_o) ANothing s1 s2
-  | 1 => compare uf (welch_outcome p_o) AExact s1 s2
-  | 2 => compare uf (welch_outcome p_o) ANormal s1 s2
+  | 0 => compare_capped uf (welch_outcome p_o) ANothing s1 s2
+  | 1 => compare_capped uf (welch_outcome p_o) AExact s1 s2
+  | 2 => compare_capped uf (welch_outcome p_o) ANormal s1 s2
   | _ => None
   end.
 
 Definition ocmp_to_cmp (ob : ocompare) : comparison :=
   mkCmp (oc_p ob) (oc_n1 ob) (oc_n2 ob) (oc_alpha ob) [].
 
-(** the as-is go-moremath exact p (rational) against a reported float p *)
-Definition asis_close_r (r : uresult) (p : b64) : bool :=
+(** the as-is go-moremath exact p (rational num/den, possibly above 1 on the tied
+    path) against a float: [cap] = the float went through benchmath's cap.
+    10^-9 relative (the rational is > 0). *)
+Definition asis_close_r (cap : bool) (r : uresult) (p : b64) : bool :=
   match r with
   | UExactP num den =>
       match rat_of_b64 p with
-      | Some q => rat_close q (num, den)
+      | Some q =>
+          let e := if cap && (den <? num) then (1, 1) else (num, den) in
+          rat_within 9 q e (rat_abs e)
       | None => false
       end
   | UPanic => false
@@ -336,55 +359,42 @@ Definition asis_close_r (r : uresult) (p : b64) : bool :=
   end.
 
 Definition corr_compare (a : Z) (x1 x2 : list b64) (alpha : b64) (obs : option ocompare)
-           (deltas : list (b64 * b64 * bytes)) (vars : list variant) : bool :=
+           (deltas : list (b64 * b64 * bytes)) (vars : list variant) (raw : option b64) : bool :=
+  let p_o := match raw with Some p => p | None => S754_nan end in
   match obs with
   | None =>
       (* the implementation panicked: so must the model *)
       let r := if a =? 0 then utest x1 x2 else UApprox in
-      match model_compare a x1 x2 alpha f_zero r with None => true | Some _ => false end
+      match model_compare a x1 x2 alpha p_o r with None => true | Some _ => false end
   | Some ob =>
       let r := if a =? 0 then utest x1 x2 else UApprox in
-      match model_compare a x1 x2 alpha (oc_p ob) r with
+      match model_compare a x1 x2 alpha p_o r with
       | None => false
       | Some m =>
           b64_same (c_p m) (oc_p ob) && (c_n1 m =? oc_n1 ob) && (c_n2 m =? oc_n2 ob)
           && b64_same (c_alpha m) (oc_alpha ob) && warns_match (c_warn m) (oc_warns ob)
+          (* numbers printed in warning texts parse back (decided by the harness) *)
+          && forallb w_textok (oc_warns ob)
           && beq (comparison_string m) (oc_string ob)
           && forallb (fun '(old, new, s) => beq (format_delta m old new) s
                                             && fixed_agree true 2 (delta_value old new)) deltas
           && fixed_agree false 3 (oc_p ob)
           && (if a =? 0 then
-                (* one evaluation serves the call and its shuffled variant (same sorted samples) *)
-                asis_close_r r (oc_p ob)
-                && forallb (fun v => if v_kind v =? 2 then asis_close_r r (v_p v) else true) vars
+                (* the library's float against the as-is rational of the model; one evaluation
+                   serves the call and its shuffled variant (same sorted samples) *)
+                match raw with Some pr => asis_close_r false r pr | None => true end
+                && asis_close_r true r (oc_p ob)
+                && forallb (fun v => if v_kind v =? 2 then asis_close_r true r (v_p v) else true) vars
                 && (if (zlen x1 <=? 25) && (zlen x2 <=? 25) then
                       let r' := utest x2 x1 in
-                      forallb (fun v => if v_kind v =? 1 then asis_close_r r' (v_p v) else true) vars
+                      forallb (fun v => if v_kind v =? 1 then asis_close_r true r' (v_p v) else true) vars
                     else true)
               else true)
       end
   end.
 
-(** 0 <= p <= 1, the upper end up to float rounding: go-moremath's untied exact
-    path sums a float DP and doubles it without capping, so an exact p of 1 can
-    come out as 1 + 2^-52 (observed for 3 vs 3 untied values with U = 4 vs 5) *)
-Definition one_plus_eps : b64 := b64_of_ZE (2 ^ 40 + 1) (-40).
-Definition in_unit (p : b64) : bool := b64_le f_zero p && b64_le p one_plus_eps.
-
-Definition p_close (p q : b64) : bool :=
-  match rat_of_b64 p, rat_of_b64 q with
-  | Some a, Some b => rat_close_rel a b
-  | _, _ => false
-  end.
-
-(** least n in 1..9 with RN(2 / C(2n, n)) <= alpha, else (">", 10) *)
-Fixpoint min_samples_go (fuel : nat) (n : Z) (alpha : b64) : bool * Z :=
-  match fuel with
-  | O => (false, n)
-  | S f => if b64_le (b64_div (b64_of_Z 2) (b64_of_Z (binom (2 * n) n))) alpha then (true, n)
-           else min_samples_go f (n + 1) alpha
-  end.
-Definition min_samples (alpha : b64) : bool * Z := min_samples_go 9 1 alpha.
+(** 0 <= p <= 1, with Go's <= (NaN is outside) *)
+Definition in_unit (p : b64) : bool := b64_le f_zero p && b64_le p b64_one.
 
 (** exact permutation p: plain enumeration when small, group DP otherwise; None = not evaluated *)
 Definition spec_p (x1 x2 : list b64) : option rat :=
@@ -395,77 +405,87 @@ Definition spec_p (x1 x2 : list b64) : option rat :=
   else if (n1 <=? 25) && (n2 <=? 25) then Some (perm_p_dp x1 x2)
   else None.
 
-Definition close_to_spec (sp : rat) (p : b64) : bool :=
-  match rat_of_b64 p with
-  | Some q => rat_close q sp
-  | None => false
-  end.
-
 Definition is_untied (x1 x2 : list b64) : bool := negb (us_ties (u_statistic x1 x2)).
 
-Definition prop_compare (a : Z) (x1 x2 : list b64) (alpha : b64) (obs : option ocompare)
+(** ** input domains of the two known findings (both in the dependency go-moremath) *)
+(** C13_moremath_tied_exact_path: the pooled values have ties and both sizes are
+    within MannWhitneyTiesExactLimit = 25 *)
+Definition tied_domain (x1 x2 : list b64) : bool :=
+  negb (is_untied x1 x2) && (zlen x1 <=? 25) && (zlen x2 <=? 25).
+(** C13_normal_compare_overflow_panic: Welch's test passes its error checks and its
+    degrees of freedom are not a finite number ((variance/n)^2 overflowed or underflowed) *)
+Definition welch_domain (x1 x2 : list b64) : bool :=
+  let y1 := sort_f x1 in
+  let y2 := sort_f x2 in
+  negb (b64_le (weight_f y1) b64_one || b64_le (weight_f y2) b64_one)
+  && negb (b64_eq (variance_f y1) f_zero && b64_eq (variance_f y2) f_zero)
+  && negb (b64_is_finite (w_dof (welch_stats y1 y2))).
+
+(** which pairs of p-values come from an exact computation on both sides *)
+Definition exact_path (a : Z) (x1 x2 : list b64) : bool :=
+  (a =? 1)
+  || ((a =? 0) && (((zlen x1 <=? 25) && (zlen x2 <=? 25))
+                   || ((zlen x1 <=? 50) && (zlen x2 <=? 50) && is_untied x1 x2))).
+
+(** [relax = false]: the specification.  [relax = true]: the same with exactly the
+    recorded deviations of the known findings allowed, each only on its input domain:
+    - tied exact path (a = 0, [tied_domain]): p need not equal the exact permutation
+      p-value and need not be symmetric (the swapped call may report another value);
+      everything else - sizes, p in [0,1], reordering and rescaling invariance,
+      threshold, rendering - is still demanded;
+    - Welch overflow (a = 2, [welch_domain]): the call may panic, or return a p that
+      is not the test's value (NaN; 1 when the variance itself overflowed), so the
+      variants are not compared with it; sizes, threshold, rendering and a p that is
+      NaN or in [0,1] are still demanded. *)
+Definition prop_compare_gen (relax : bool) (a : Z) (x1 x2 : list b64) (alpha : b64) (obs : option ocompare)
            (deltas : list (b64 * b64 * bytes)) (vars : list variant) : bool :=
+  let tied := relax && (a =? 0) && tied_domain x1 x2 in
+  let welch := relax && (a =? 2) && welch_domain x1 x2 in
   match obs with
-  | None => false           (* a comparison never panics *)
+  | None => welch           (* a comparison never panics *)
   | Some ob =>
       let n1 := zlen x1 in
       let n2 := zlen x2 in
       let p := oc_p ob in
       let cm := ocmp_to_cmp ob in
       let valid := filter v_valid vars in
+      let ex := exact_path a x1 x2 in
       (oc_n1 ob =? n1) && (oc_n2 ob =? n2)
-      && in_unit p
+      && (in_unit p || (welch && b64_is_nan p))
       (* rendering rules on what was observed *)
       && beq (oc_string ob) (comparison_string cm)
       && forallb (fun '(old, new, s) => beq (format_delta cm old new) s) deltas
-      && forallb w_textok (oc_warns ob)
       (* symmetric, invariant under reordering and rescaling *)
-      && forallb (fun v => p_close p (v_p v)
-                           && (if v_kind v =? 1 then (v_n1 v =? n2) && (v_n2 v =? n1)
-                               else (v_n1 v =? n1) && (v_n2 v =? n2))) valid
+      && (welch
+          || forallb (fun v => (p_same ex p (v_p v) || (tied && (v_kind v =? 1)))
+                               && (if v_kind v =? 1 then (v_n1 v =? n2) && (v_n2 v =? n1)
+                                   else (v_n1 v =? n1) && (v_n2 v =? n2))) valid)
       && match a with
          | 0 =>
+             (* the threshold the first sample was created with *)
              b64_same (oc_alpha ob) alpha
-             && (let eq := all_equal (x1 ++ x2) in
-                 match oc_warns ob with
-                 | [w] =>
-                     if w_kind w =? 5 then eq && b64_same p b64_one
-                     else
-                       let '(ge, n) := min_samples alpha in
-                       (w_kind w =? 2) && negb eq && b64_gt p alpha && (n1 <? n) && (n2 <? n)
-                       && Bool.eqb (w_ge w) ge && (w_n w =? n)
-                 | [] =>
-                     let '(_, n) := min_samples alpha in
-                     negb eq && negb (b64_gt p alpha && (n1 <? n) && (n2 <? n))
-                 | _ => false
-                 end)
-             && (if (n1 <=? 25) && (n2 <=? 25) then
-                   match spec_p x1 x2 with
-                   | Some sp => close_to_spec sp p && forallb (fun v => close_to_spec sp (v_p v)) valid
-                   | None => true
-                   end
-                 else
-                   (* untied samples up to 50 use the exact distribution as well *)
-                   if (n1 <=? 50) && (n2 <=? 50) && is_untied x1 x2 then
-                     match spec_p x1 x2 with
-                     | Some sp => close_to_spec sp p
-                     | None => true
-                     end
-                   else true)
-         | 1 => b64_same p f_zero && match oc_warns ob with [] => true | _ => false end
-         | 2 =>
-             b64_same (oc_alpha ob) alpha
-             && match oc_warns ob with
-                | [] => (1 <? n1) && (1 <? n2) && negb (all_equal x1 && all_equal x2)
-                | [w] =>
-                    b64_same p b64_one
-                    && (if (n1 <=? 1) || (n2 <=? 1) then w_kind w =? 4
-                        else (w_kind w =? 6) && all_equal x1 && all_equal x2)
-                | _ => false
-                end
+             (* the exact permutation p-value *)
+             && (tied
+                 || if (n1 <=? 25) && (n2 <=? 25) then
+                      match spec_p x1 x2 with
+                      | Some sp => p_is_spec sp p && forallb (fun v => p_is_spec sp (v_p v)) valid
+                      | None => true
+                      end
+                    else
+                      (* untied samples up to 50 use the exact distribution as well *)
+                      if (n1 <=? 50) && (n2 <=? 50) && is_untied x1 x2 then
+                        match spec_p x1 x2 with
+                        | Some sp => p_is_spec sp p
+                        | None => true
+                        end
+                      else true)
+         | 1 => true            (* no test performed: nothing beyond the common clauses *)
+         | 2 => b64_same (oc_alpha ob) alpha
          | _ => false
          end
   end.
+
+Definition prop_compare := prop_compare_gen false.
 
 (** ** direct rendering cases *)
 Definition ok_delta (p alpha old new : b64) (s : bytes) : bool :=
@@ -478,7 +498,7 @@ Definition ok_string (p : b64) (n1 n2 : Z) (s : bytes) : bool :=
 Definition corr_ok (c : case) : bool :=
   match c with
   | KSummary a vals conf obs o => corr_summary a vals conf obs o
-  | KCompare a x1 x2 alpha obs deltas vars => corr_compare a x1 x2 alpha obs deltas vars
+  | KCompare a x1 x2 alpha obs deltas vars raw => corr_compare a x1 x2 alpha obs deltas vars raw
   | KDelta p alpha old new s => ok_delta p alpha old new s
   | KPct c lo hi s => ok_pct c lo hi s
   | KString p n1 n2 s => ok_string p n1 n2 s
@@ -487,14 +507,23 @@ Definition corr_ok (c : case) : bool :=
 Definition prop_ok (c : case) : bool :=
   match c with
   | KSummary a vals conf obs o => prop_summary a vals conf obs o
-  | KCompare a x1 x2 alpha obs deltas vars => prop_compare a x1 x2 alpha obs deltas vars
+  | KCompare a x1 x2 alpha obs deltas vars _ => prop_compare a x1 x2 alpha obs deltas vars
   | KDelta p alpha old new s => ok_delta p alpha old new s
   | KPct c lo hi s => ok_pct c lo hi s
   | KString p n1 n2 s => ok_string p n1 n2 s
   end.
 
+(** the judge of the known findings C13_moremath_tied_exact_path and
+    C13_normal_compare_overflow_panic: everything [prop_ok] demands except exactly
+    their recorded deviations, each on its own input domain (see [prop_compare_gen]) *)
+Definition known_ok (c : case) : bool :=
+  match c with
+  | KCompare a x1 x2 alpha obs deltas vars _ => prop_compare_gen true a x1 x2 alpha obs deltas vars
+  | _ => prop_ok c
+  end.
+
 Definition run_case (s : sx) : N :=
   match decode s with
-  | Some c => code_of (corr_ok c) (prop_ok c)
+  | Some c => code_of3 (corr_ok c) (prop_ok c) (known_ok c)
   | None => code_undecodable
   end.
